@@ -58,7 +58,8 @@ def expected_value(cid, metric, k):
 
 # a plan = (requests in issue order, {component: number of messages})
 PLANS = {
-    "meter": ([("ns", 2, M.ACTIVE_POWER), ("ns", 2, M.FREQUENCY), ("ns2", 2, M.ACTIVE_POWER), ("ns", 2, M.ACTIVE_POWER), ("ns", 99, M.ACTIVE_POWER)],
+    # (the request for the unknown component 99 sits in the middle: requests behind it must be served all the same)
+    "meter": ([("ns", 2, M.ACTIVE_POWER), ("ns", 2, M.FREQUENCY), ("ns", 99, M.ACTIVE_POWER), ("ns2", 2, M.ACTIVE_POWER), ("ns", 2, M.ACTIVE_POWER)],
               {2: 4}),
     "meter-short": ([("ns", 2, M.ACTIVE_POWER), ("ns", 2, M.REACTIVE_POWER), ("ns2", 2, M.ACTIVE_POWER)], {2: 4}),
     "two-components": ([("ns", 9, M.SOC), ("ns", 8, M.ACTIVE_POWER), ("ns", 9, M.CAPACITY)], {9: 3, 8: 2}),
